@@ -82,6 +82,17 @@ class Store:
                 continue
             l = s["pl"]["l"]
             rv = s["rv"]
+            # a tuple built from tracked booleans (`match (c, after_comma)`): its fields keep their values
+            for k_ in [k_ for k_ in st if k_[0] == "tflag" and k_[1] == l]:
+                del st[k_]
+            if rv["k"] == "agg" and rv.get("agg") == "tuple":
+                for i_, o_ in enumerate(rv["ops"]):
+                    if o_.get("k") == "const" and isinstance(o_.get("v"), bool):
+                        st[("tflag", l, i_)] = o_["v"]
+                    elif op_local(o_) is not None and not o_["pl"]["p"]:
+                        r_, neg_ = _root(self.body, op_local(o_))
+                        if ("flag", r_) in st:
+                            st[("tflag", l, i_)] = st[("flag", r_)] != neg_
             # variant tags: which enum variant a local holds
             if rv["k"] == "agg" and rv.get("agg") == "adt" and rv.get("variant"):
                 st[("var", l)] = rv["variant"]
@@ -166,7 +177,22 @@ class Store:
             return succs
         r, neg = _root(body, dl)
         val = None
-        if r in self.flags and ("flag", r) in st:
+        dpl = core.op_place(t["discr"])
+        fproj = [e for e in dpl["p"] if e[0] != "d"] if dpl else []
+        if not fproj:
+            # a copy of a tuple field: `_x = copy (_t.1)`
+            ds0 = [d for d in body.defs().get(r, []) if not (d[2] == "assign" and d[3]["pl"]["p"])]
+            if len(ds0) == 1 and ds0[0][2] == "assign" and ds0[0][3]["rv"]["k"] == "use" and core.op_place(ds0[0][3]["rv"]["o"]) is not None:
+                pl0 = core.op_place(ds0[0][3]["rv"]["o"])
+                f0 = [e for e in pl0["p"] if e[0] != "d"]
+                if len(f0) == 1 and f0[0][0] == "f":
+                    dpl, fproj = pl0, f0
+        if len(fproj) == 1 and fproj[0][0] == "f" and ("tflag", dpl["l"], fproj[0][1]) in st:
+            val = st[("tflag", dpl["l"], fproj[0][1])]
+            neg = neg if dpl is not core.op_place(t["discr"]) else False
+        elif fproj:
+            return succs
+        elif r in self.flags and ("flag", r) in st:
             val = st[("flag", r)]
         else:
             ds = body.defs().get(r, [])
